@@ -4,12 +4,12 @@
    correspondence run (coq/Corr/C25.v, harness/src/bin/c25.rs).
    A history is a list of calls (Ins / Del / Vac / Reopen / Search) made by a caller that keeps the table
    of live rows `tbl` (what the get_vector callbacks answer from); `run0 p ops` is the world (index state
-   + table) after the history; `class_of` is 0 while no node has been deleted and the first node page
-   is at most half full, 1 once some node is deleted, 2 once the entry point is deleted, 3 once more than
-   8192 bytes of the first node page are in use (recorded findings F-C25-1 / F-C25-2 / F-C25-3; in
-   class 3 the implementation's slot offsets alias and this byte-free model no longer describes it). *)
+   + table) after the history.  `clean p w0 ops`: no insert of the history failed half way (an insert
+   fails only when it meets a deleted node).  `class_of` is 0 while no node has been deleted, 1 once
+   some node is deleted, 2 once the entry point is deleted (open findings F-C25-4 / F-C25-2).
+   Tree: /repo at 4d4f2e6 (F-C25-1 phantom results and F-C25-3 slot offsets repaired). *)
 From Coq Require Import ZArith List Bool.
-From TV Require Import Model.Hnsw Model.Sq8 Proof.HnswHeap Proof.HnswSearch Proof.HnswFuel Proof.HnswSound Proof.HnswAll Proof.HnswComplete Proof.Sq8.
+From TV Require Import Model.Hnsw Model.Sq8 Proof.HnswHeap Proof.HnswSearch Proof.HnswFuel Proof.HnswSound Proof.HnswAll Proof.HnswInv1 Proof.HnswComplete Proof.Sq8.
 Import ListNotations.
 Open Scope Z_scope.
 
@@ -34,43 +34,62 @@ Theorem search_total :
     end.
 Proof. exact search_total_l. Qed.
 
-(* histories without a deleted node (class 0) of a caller that never inserts a live row id twice:
-   at most k results, pairwise distinct row ids, every one live and reported with its true distance,
-   in non-decreasing order of that distance *)
+(* EVERY clean history (deleted nodes and a deleted entry point included) of a caller that never inserts a
+   live row id twice: at most k results, pairwise distinct row ids, every one live and reported with its
+   true distance, in non-decreasing order of that distance *)
 Theorem search_sound :
   forall p ops q k ef,
-    wf_ops p w0 ops = true -> class_of (ix (run0 p ops)) = 0 -> 0 <= k ->
+    wf_ops p w0 ops = true -> clean p w0 ops = true -> 0 <= k ->
     match search p (getv_of (tbl (run0 p ops))) (ix (run0 p ops)) q k ef with
     | SOk l => Z.of_nat (length l) <= k /\ NoDup (map fst l) /\ res_asc l /\ live_true (tbl (run0 p ops)) q l
     | SErr => Z.of_nat (length q) <> dims p
     | SAbort | SFuel => False
     end.
-Proof. exact search_sound_l. Qed.
+Proof. exact search_sound_clean_l. Qed.
 
-(* ... and at least one result whenever a live vector exists (k >= 1, search width >= 1) *)
+(* ... and at least one result whenever a live vector exists, as long as the entry point itself has not
+   been deleted (k >= 1, search width >= 1) *)
 Theorem search_nonempty :
   forall p ops q k ef l,
-    wf_ops p w0 ops = true -> class_of (ix (run0 p ops)) = 0 ->
+    wf_ops p w0 ops = true -> clean p w0 ops = true -> entry_dead (ix (run0 p ops)) = false ->
     tbl (run0 p ops) <> [] -> 1 <= k -> 1 <= ef ->
     search p (getv_of (tbl (run0 p ops))) (ix (run0 p ops)) q k ef = SOk l -> l <> [].
-Proof. exact search_nonempty_l. Qed.
+Proof. exact search_nonempty_clean_l. Qed.
 
-(* the clause fails once a node is deleted: a deleted, still linked node is reported as row id 0 (not
-   live) with distance +inf ... *)
+(* liveness fails once an insert has failed half way (class 1, open finding F-C25-4): the insert after a
+   delete selects the deleted node, returns Err, and leaves its own node linked: row 3, which the caller
+   was told is not in the index, is reported with distance +inf *)
 Theorem search_live_refuted :
-  wf_ops wit_p w0 wit1 = true /\ class_of (ix (run0 wit_p wit1)) = 1 /\
-  search wit_p (getv_of (tbl (run0 wit_p wit1))) (ix (run0 wit_p wit1)) [0;0] 2 4 = SOk [(1, Fin 0); (0, Inf)] /\
-  a_get 0 (tbl (run0 wit_p wit1)) = None.
+  wf_ops wit_p w0 wit3 = true /\ class_of (ix (run0 wit_p wit3)) = 1 /\ clean wit_p w0 wit3 = false /\
+  snd (step wit_p (run0 wit_p wit1) (Ins 3 [1;1] 0 false)) = OIns false /\
+  search wit_p (getv_of (tbl (run0 wit_p wit3))) (ix (run0 wit_p wit3)) [0;0] 5 8 = SOk [(1, Fin 0); (3, Inf)] /\
+  a_get 3 (tbl (run0 wit_p wit3)) = None.
 Proof. exact search_live_refuted_l. Qed.
 
-(* ... and once the entry point is deleted nothing live is found although a live vector exists (also
-   after vacuum and reopen), and the next insert fails *)
+(* completeness on a small index fails with a deleted node even in a clean history (class 1, F-C25-4): the
+   deleted node is a dead end, the live row 3 behind it is not found although 3 nodes <= width 64 *)
+Theorem small_index_complete_refuted :
+  wf_ops wit_p1 w0 wit4 = true /\ class_of (ix (run0 wit_p1 wit4)) = 1 /\ clean wit_p1 w0 wit4 = true /\
+  length (nodes (ix (run0 wit_p1 wit4))) = 3%nat /\
+  a_get 3 (tbl (run0 wit_p1 wit4)) = Some [6;0] /\
+  search wit_p1 (getv_of (tbl (run0 wit_p1 wit4))) (ix (run0 wit_p1 wit4)) [0;0] 100 64 = SOk [(1, Fin 4)].
+Proof. exact small_index_complete_refuted_l. Qed.
+
+(* non-emptiness fails once the entry point is deleted (class 2, open finding F-C25-2): nothing is found
+   although row 2 is live, also after vacuum and reopen, and the next insert fails *)
 Theorem search_nonempty_refuted :
-  wf_ops wit_p w0 wit2 = true /\ class_of (ix (run0 wit_p wit2)) = 2 /\
+  wf_ops wit_p w0 wit2 = true /\ class_of (ix (run0 wit_p wit2)) = 2 /\ clean wit_p w0 wit2 = true /\
   a_get 2 (tbl (run0 wit_p wit2)) = Some [3;4] /\
-  search wit_p (getv_of (tbl (run0 wit_p wit2))) (ix (run0 wit_p wit2)) [3;4] 2 4 = SOk [(0, Inf)] /\
+  search wit_p (getv_of (tbl (run0 wit_p wit2))) (ix (run0 wit_p wit2)) [3;4] 2 4 = SOk [] /\
   snd (step wit_p (run0 wit_p wit2) (Ins 3 [1;1] 0 false)) = OIns false.
 Proof. exact search_nonempty_refuted_l. Qed.
+
+(* HISTORICAL (F-C25-1 as first recorded: a deleted node was reported as row id 0 with distance +inf;
+   repaired by /repo 68d5b43): on the former witness the deleted node is dropped and the result is sound *)
+Theorem phantom_result_fixed :
+  wf_ops wit_p w0 wit1 = true /\ class_of (ix (run0 wit_p wit1)) = 1 /\ clean wit_p w0 wit1 = true /\
+  search wit_p (getv_of (tbl (run0 wit_p wit1))) (ix (run0 wit_p wit1)) [0;0] 2 4 = SOk [(1, Fin 0)].
+Proof. exact phantom_result_fixed_l. Qed.
 
 (* class 0: an insert of a vector of the right dimension succeeds *)
 Theorem insert_ok :
@@ -123,12 +142,12 @@ Theorem sq8_error_bound :
     2 * Z.abs (sq_decode255 mn R c - 255 * v) <= sq_scale255 R.
 Proof. exact sq8_error_bound_l. Qed.
 
-(* non-vacuity: a well-formed class-0 history with ties, three levels and a reopen; its searches return
-   several rows; the class-1 and class-2 hypotheses are met by the witnesses above *)
+(* non-vacuity: a well-formed clean class-0 history with ties, three levels and a reopen; its searches
+   return several rows; clean histories with deleted nodes are wit1 / wit2 / wit4 above *)
 Example c25_witness :
   let p := Pm 2 2 4 in
   let ops := [Ins 1 [0;0] 0 false; Ins 2 [3;4] 1 false; Ins 3 [1;1] 0 false; Ins 4 [1;1] 2 true; Vac 5; Reopen; Del 9] in
-  wf_ops p w0 ops = true /\ class_of (ix (run0 p ops)) = 0 /\ tbl (run0 p ops) <> [] /\
+  wf_ops p w0 ops = true /\ clean p w0 ops = true /\ class_of (ix (run0 p ops)) = 0 /\ tbl (run0 p ops) <> [] /\
   search p (getv_of (tbl (run0 p ops))) (ix (run0 p ops)) [1;0] 3 8 = SOk [(3, Fin 1); (4, Fin 1); (1, Fin 1)] /\
   search p (getv_of (tbl (run0 p ops))) (ix (run0 p ops)) [1;0;0] 3 8 = SErr /\
   sq_encode [0; 10; 255; 510] = [0; 5; 128; 255].
@@ -148,7 +167,7 @@ Check search_total :
     end.
 Check search_sound :
   forall p ops q k ef,
-    wf_ops p w0 ops = true -> class_of (ix (run0 p ops)) = 0 -> 0 <= k ->
+    wf_ops p w0 ops = true -> clean p w0 ops = true -> 0 <= k ->
     match search p (getv_of (tbl (run0 p ops))) (ix (run0 p ops)) q k ef with
     | SOk l => Z.of_nat (length l) <= k /\ NoDup (map fst l) /\ res_asc l /\ live_true (tbl (run0 p ops)) q l
     | SErr => Z.of_nat (length q) <> dims p
@@ -156,18 +175,27 @@ Check search_sound :
     end.
 Check search_nonempty :
   forall p ops q k ef l,
-    wf_ops p w0 ops = true -> class_of (ix (run0 p ops)) = 0 ->
+    wf_ops p w0 ops = true -> clean p w0 ops = true -> entry_dead (ix (run0 p ops)) = false ->
     tbl (run0 p ops) <> [] -> 1 <= k -> 1 <= ef ->
     search p (getv_of (tbl (run0 p ops))) (ix (run0 p ops)) q k ef = SOk l -> l <> [].
 Check search_live_refuted :
-  wf_ops wit_p w0 wit1 = true /\ class_of (ix (run0 wit_p wit1)) = 1 /\
-  search wit_p (getv_of (tbl (run0 wit_p wit1))) (ix (run0 wit_p wit1)) [0;0] 2 4 = SOk [(1, Fin 0); (0, Inf)] /\
-  a_get 0 (tbl (run0 wit_p wit1)) = None.
+  wf_ops wit_p w0 wit3 = true /\ class_of (ix (run0 wit_p wit3)) = 1 /\ clean wit_p w0 wit3 = false /\
+  snd (step wit_p (run0 wit_p wit1) (Ins 3 [1;1] 0 false)) = OIns false /\
+  search wit_p (getv_of (tbl (run0 wit_p wit3))) (ix (run0 wit_p wit3)) [0;0] 5 8 = SOk [(1, Fin 0); (3, Inf)] /\
+  a_get 3 (tbl (run0 wit_p wit3)) = None.
+Check small_index_complete_refuted :
+  wf_ops wit_p1 w0 wit4 = true /\ class_of (ix (run0 wit_p1 wit4)) = 1 /\ clean wit_p1 w0 wit4 = true /\
+  length (nodes (ix (run0 wit_p1 wit4))) = 3%nat /\
+  a_get 3 (tbl (run0 wit_p1 wit4)) = Some [6;0] /\
+  search wit_p1 (getv_of (tbl (run0 wit_p1 wit4))) (ix (run0 wit_p1 wit4)) [0;0] 100 64 = SOk [(1, Fin 4)].
 Check search_nonempty_refuted :
-  wf_ops wit_p w0 wit2 = true /\ class_of (ix (run0 wit_p wit2)) = 2 /\
+  wf_ops wit_p w0 wit2 = true /\ class_of (ix (run0 wit_p wit2)) = 2 /\ clean wit_p w0 wit2 = true /\
   a_get 2 (tbl (run0 wit_p wit2)) = Some [3;4] /\
-  search wit_p (getv_of (tbl (run0 wit_p wit2))) (ix (run0 wit_p wit2)) [3;4] 2 4 = SOk [(0, Inf)] /\
+  search wit_p (getv_of (tbl (run0 wit_p wit2))) (ix (run0 wit_p wit2)) [3;4] 2 4 = SOk [] /\
   snd (step wit_p (run0 wit_p wit2) (Ins 3 [1;1] 0 false)) = OIns false.
+Check phantom_result_fixed :
+  wf_ops wit_p w0 wit1 = true /\ class_of (ix (run0 wit_p wit1)) = 1 /\ clean wit_p w0 wit1 = true /\
+  search wit_p (getv_of (tbl (run0 wit_p wit1))) (ix (run0 wit_p wit1)) [0;0] 2 4 = SOk [(1, Fin 0)].
 Check insert_ok :
   forall p ops row v lvl blind,
     wf_ops p w0 (ops ++ [Ins row v lvl blind]) = true -> class_of (ix (run0 p ops)) = 0 ->
@@ -200,7 +228,9 @@ Print Assumptions search_total.
 Print Assumptions search_sound.
 Print Assumptions search_nonempty.
 Print Assumptions search_live_refuted.
+Print Assumptions small_index_complete_refuted.
 Print Assumptions search_nonempty_refuted.
+Print Assumptions phantom_result_fixed.
 Print Assumptions insert_ok.
 Print Assumptions vacuum_never_unlinks.
 Print Assumptions reopen_id.
